@@ -211,6 +211,11 @@ std::string gen_op(Profile &p, const std::vector<std::pair<int, OpK>> &weights) 
       if (chance(20)) s += fmt(" mmap=%d", uni(0, 1));
       if (chance(15)) s += fmt(" bs=%d", pick<int>({{1, 1024}, {1, 4096}}));
       if (chance(15)) s += fmt(" paranoid=%d", uni(0, 1));
+      // every option except the comparator may differ from one open to the next
+      if (chance(10)) s += fmt(" ri=%d", pick<int>({{1, 1}, {1, 4}, {1, 16}}));
+      if (chance(10)) s += fmt(" wbs=%d", pick<int>({{2, 65536}, {1, 131072}, {1, 4 << 20}}));
+      if (chance(10)) s += fmt(" mfs=%d", pick<int>({{1, 1 << 20}, {1, 2 << 20}}));
+      if (chance(10)) s += fmt(" mof=%d", pick<int>({{1, 1000}, {1, 74}}));
       return s;
     }
     case SNAP: { int id = fresh_id(p.snaps, 4); if (!contains(p.snaps, id)) p.snaps.push_back(id); return fmt("snap %d", id); }
